@@ -32,6 +32,7 @@ enum View {
     Rev,   // iterate with .rev() and reverse the result
     Index, // build every list with the n-th accessors
     Mut,   // read through the *_mut iterators
+    MutRev, // the *_mut iterators consumed from the back, result reversed
 }
 
 macro_rules! list {
@@ -53,6 +54,11 @@ macro_rules! list {
                 v
             }
             View::Mut => $x.$it_mut().map(|e| $id(&*e)).collect::<Vec<Sx>>(),
+            View::MutRev => {
+                let mut v = $x.$it_mut().rev().map(|e| $id(&*e)).collect::<Vec<Sx>>();
+                v.reverse();
+                v
+            }
         }
     };
 }
@@ -63,6 +69,11 @@ fn walk_conformer(c: &mut Conformer, v: View) -> Sx {
 fn walk_residue(r: &mut Residue, v: View) -> Sx {
     let awh: Vec<Sx> = match v {
         View::Mut => r.atoms_with_hierarchy_mut().map(|h| l(vec![id_atom(h.atom()), id_conf(h.conformer())])).collect(),
+        View::MutRev => {
+            let mut x: Vec<Sx> = r.atoms_with_hierarchy_mut().rev().map(|h| l(vec![id_atom(h.atom()), id_conf(h.conformer())])).collect();
+            x.reverse();
+            x
+        }
         View::Rev => {
             let mut x: Vec<Sx> = r.atoms_with_hierarchy().rev().map(|h| l(vec![id_atom(h.atom()), id_conf(h.conformer())])).collect();
             x.reverse();
@@ -81,6 +92,11 @@ fn walk_chain(c: &mut Chain, v: View) -> Sx {
     let f = |h: &dyn ContainsAtomConformerResidue| l(vec![id_atom(h.atom()), id_conf(h.conformer()), id_res(h.residue())]);
     let awh: Vec<Sx> = match v {
         View::Mut => c.atoms_with_hierarchy_mut().map(|h| f(&h)).collect(),
+        View::MutRev => {
+            let mut x: Vec<Sx> = c.atoms_with_hierarchy_mut().rev().map(|h| f(&h)).collect();
+            x.reverse();
+            x
+        }
         View::Rev => {
             let mut x: Vec<Sx> = c.atoms_with_hierarchy().rev().map(|h| f(&h)).collect();
             x.reverse();
@@ -100,6 +116,11 @@ fn walk_model(m: &mut Model, v: View) -> Sx {
     let f = |h: &dyn ContainsAtomConformerResidueChain| l(vec![id_atom(h.atom()), id_conf(h.conformer()), id_res(h.residue()), id_chain(h.chain())]);
     let awh: Vec<Sx> = match v {
         View::Mut => m.atoms_with_hierarchy_mut().map(|h| f(&h)).collect(),
+        View::MutRev => {
+            let mut x: Vec<Sx> = m.atoms_with_hierarchy_mut().rev().map(|h| f(&h)).collect();
+            x.reverse();
+            x
+        }
         View::Rev => {
             let mut x: Vec<Sx> = m.atoms_with_hierarchy().rev().map(|h| f(&h)).collect();
             x.reverse();
@@ -122,6 +143,11 @@ fn walk_pdb(p: &mut PDB, v: View) -> Sx {
     };
     let awh: Vec<Sx> = match v {
         View::Mut => p.atoms_with_hierarchy_mut().map(|h| f(&h)).collect(),
+        View::MutRev => {
+            let mut x: Vec<Sx> = p.atoms_with_hierarchy_mut().rev().map(|h| f(&h)).collect();
+            x.reverse();
+            x
+        }
         View::Rev => {
             let mut x: Vec<Sx> = p.atoms_with_hierarchy().rev().map(|h| f(&h)).collect();
             x.reverse();
@@ -222,7 +248,7 @@ pub fn run(seed: u64, count: usize, thorough: bool, out: &mut Out) {
         let p = gen::ragged(&mut rng, &cfg);
         let psx = short(&p);
         let nontrivial = p.total_atom_count() > 1;
-        for (view, name) in [(View::Seq, "seq"), (View::Rev, "rev"), (View::Index, "index"), (View::Mut, "mut")] {
+        for (view, name) in [(View::Seq, "seq"), (View::Rev, "rev"), (View::Index, "index"), (View::Mut, "mut"), (View::MutRev, "mut-rev")] {
             let mut q = p.clone();
             let w = crate::guarded(|| walk_pdb(&mut q, view)).unwrap_or(y("panic"));
             out.case("C09", call("walk", vec![psx.clone()]), w.clone(), &format!("prop:walk-{name}"), nontrivial);
